@@ -21,6 +21,7 @@
 //! helpers, `PolynomialBatch::from_values` commitments without blinding, and a STARK (defined here
 //! through the public `Stark` trait) with all challenges of `get_challenges` that precede the PoW.
 use std::io::Write;
+use plonky2::field::ops::Square;
 use std::marker::PhantomData;
 use std::panic::{catch_unwind, AssertUnwindSafe};
 
@@ -287,6 +288,55 @@ fn merkle_artefacts<H: Hasher<F>>(tag: &str, tier: &str, out: &mut Out) {
     }
 }
 
+/// Lane-wise arithmetic of the packed field type this build selects (`<F as Packable>::Packing`: the scalar
+/// field itself, the AVX2 or the AVX-512 vector type) on boundary and non-canonical representations; one
+/// artefact per (operation, first operand), the second operand running over the whole boundary set, results
+/// canonical.  A scalar build computes the same table with scalar arithmetic (decided by C14).
+fn packed_artefacts(tier: &str, out: &mut Out) {
+    type P = <F as plonky2::field::packable::Packable>::Packing;
+    let w = <P as PackedField>::WIDTH;
+    let mut r = Rng::new(0x5041_434b);
+    let mut vals = crate::rng::boundary_u64();
+    let extra = if tier == "thorough" { 200 } else { 30 };
+    for _ in 0..extra { let v = crate::rng::mixed_u64(&mut r, &crate::rng::boundary_u64()); vals.push(v); }
+    let f = |x: u64| F::from_noncanonical_u64(x);
+    let pack = |xs: &[u64]| -> P { let mut a = vec![F::ZERO; w]; for (i, &x) in xs.iter().enumerate() { a[i] = f(x); } *P::from_slice(&a) };
+    type Op = (&'static str, fn(P, P) -> P);
+    let ops: Vec<Op> = vec![
+        ("add", |a, b| a + b), ("sub", |a, b| a - b), ("mul", |a, b| a * b), ("neg_add", |a, b| -a + b),
+        ("square_add", |a, b| a.square() + b), ("add_assign_twice", |a, b| { let mut c = a; c += b; c += b; c }),
+        ("sub_assign_mul", |a, b| { let mut c = a; c -= b; c *= a; c }), ("mul_add_sub", |a, b| a * b + a - b),
+        ("add_scalar", |a, b| a + b.as_slice()[0]), ("mul_scalar", |a, b| a * b.as_slice()[0]), ("sub_scalar", |a, b| a - b.as_slice()[0]),
+    ];
+    for (name, op) in ops.iter() {
+        for &x in vals.iter() {
+            let px = pack(&vec![x; w]);
+            let mut res: Vec<F> = Vec::with_capacity(vals.len());
+            for chunk in vals.chunks(w) {
+                let scalar_op = name.ends_with("_scalar");
+                if scalar_op {
+                    // the scalar operand is one value: one call per second operand
+                    for &y in chunk { res.push(op(px, pack(&vec![y; w])).as_slice()[0]); }
+                } else {
+                    let py = pack(chunk);
+                    res.extend_from_slice(&op(px, py).as_slice()[..chunk.len()]);
+                }
+            }
+            out.digest(&format!("packed/{name}/x{x:016x}"), &fes_bytes(&res));
+        }
+    }
+    // sums and products along a vector (the shape of the FFT butterflies and of the quotient evaluation)
+    for (k, &x) in vals.iter().enumerate() {
+        let xs: Vec<u64> = (0..4 * w.max(2)).map(|i| vals[(k + 7 * i) % vals.len()]).collect();
+        let ps: Vec<P> = xs.chunks(w).map(|c| pack(c)).collect();
+        let mut acc = pack(&vec![x; w]);
+        for p in &ps { acc = acc * *p + *p; }
+        // lanes see different operands in different builds: fold the lanes back in a width-independent way
+        let lanes: Vec<F> = (0..w).map(|j| { let mut t = f(x); for c in xs.chunks(w) { let y = if j < c.len() { f(c[j]) } else { F::ZERO }; t = t * y + y; } t }).collect();
+        out.digest(&format!("packed/fold_matches_scalar/x{x:016x}"), &[(acc.as_slice() == &lanes[..]) as u8]);
+    }
+}
+
 fn fft_artefacts(tier: &str, out: &mut Out) {
     let mut r = Rng::new(0x4646_5421);
     let max_log = if tier == "thorough" { 16 } else { 12 };
@@ -299,6 +349,12 @@ fn fft_artefacts(tier: &str, out: &mut Out) {
         out.digest(&format!("fft/ifft_fft_is_id.n{log_n}"), &[(back.coeffs == c) as u8]);
         let iv = ifft(PolynomialValues::new(c.clone()));
         out.digest(&format!("fft/ifft.n{log_n}"), &fes_bytes(&iv.coeffs));
+        // the same transforms on non-canonically stored inputs (boundary representations of field elements)
+        let bnd = crate::rng::boundary_u64();
+        let cn: Vec<F> = (0..n).map(|_| F::from_noncanonical_u64(crate::rng::mixed_u64(&mut r, &bnd))).collect();
+        out.digest(&format!("fft/fft_noncanonical.n{log_n}"), &fes_bytes(&fft(PolynomialCoeffs::new(cn.clone())).values));
+        out.digest(&format!("fft/ifft_noncanonical.n{log_n}"), &fes_bytes(&ifft(PolynomialValues::new(cn.clone())).coeffs));
+        out.digest(&format!("fft/lde_noncanonical.n{log_n}"), &fes_bytes(&PolynomialCoeffs::new(cn.clone()).lde(1).coset_fft(F::coset_shift()).values));
         let table = fft_root_table::<F>(n);
         let v2 = fft_with_options(PolynomialCoeffs::new(c.clone()), None, Some(&table));
         out.digest(&format!("fft/fft_table.n{log_n}"), &fes_bytes(&v2.values));
@@ -531,6 +587,7 @@ pub fn run(seed: u64, tier: &str, w: &mut dyn Write) -> usize {
         merkle_artefacts::<PoseidonHash>("poseidon", tier, &mut out);
         merkle_artefacts::<KeccakHash<25>>("keccak", tier, &mut out);
     }
+    if want("packed") { packed_artefacts(tier, &mut out); }
     if want("fft") { fft_artefacts(tier, &mut out); }
     if want("polybatch") { polybatch_artefacts(tier, &mut out); }
     if want("stark") { produce_starks(tier, &mut out, &dir); }
